@@ -389,6 +389,7 @@ package raft
 //@   ensures  stale_term_ignored: req.Term < old(r.currentTerm) ==> !voteResp(rpc).Granted && r.currentTerm == old(r.currentTerm) &&
 //@              r.state == old(r.state) && voteTerm(r) == old(voteTerm(r)) && r.stable.val == old(r.stable.val) && r.stable.has == old(r.stable.has)
 //@   ensures  term_change_resets_role: r.currentTerm != old(r.currentTerm) ==> r.state == Follower
+//@   ensures  term_change_clears_leader: r.currentTerm != old(r.currentTerm) ==> r.leaderAddr == "" && r.leaderID == ""
 //@   ensures  refuse_while_leader_known: old(r.leaderAddr) != "" && old(r.leaderAddr) != decodePeerOf(candOf(req)) && !req.LeadershipTransfer ==> !voteResp(rpc).Granted
 //@   ensures  log_untouched: r.lastLogIndex == old(r.lastLogIndex) && r.lastLogTerm == old(r.lastLogTerm) && r.commitIndex == old(r.commitIndex) && r.lastApplied == old(r.lastApplied)
 
